@@ -29,6 +29,15 @@ def sh(cmd, cwd=None, env=None, timeout=1800):
     return p.returncode, p.stdout
 
 
+def run_demo(demo, binp, env):
+    """Demos take the binary path, the worktree path, or nothing as their argument; try in that order."""
+    for arg in ([binp], [WT], []):
+        rc, out = sh([sys.executable, demo] + arg, cwd=WT, env=env, timeout=600)
+        if rc in (0, 1) and "NotADirectoryError" not in out and "FileNotFoundError" not in out and "Traceback" not in out:
+            return rc, out
+    return rc, out
+
+
 def main():
     args = [a for a in sys.argv[1:] if not a.startswith("--")]
     skip = "--skip-verify" in sys.argv
@@ -58,7 +67,7 @@ def main():
         binp = os.path.join(TGT, "debug", "ferrous")
         if not skip:
             rc, out = sh("cargo build --offline --quiet 2>&1 | tail -3", cwd=WT, env=env)
-            rc0, out0 = sh([sys.executable, demo, binp], cwd=WT, env=env, timeout=300)
+            rc0, out0 = run_demo(demo, binp, env)
             meta["ran"].append({"cmd": "demo without patch", "rc": rc0, "tail": out0[-300:]})
         rc, out = sh("git apply %s" % patch, cwd=WT)
         if rc != 0:
@@ -69,7 +78,7 @@ def main():
             return 2
         if not skip:
             rc, out = sh("cargo build --offline --quiet 2>&1 | tail -5", cwd=WT, env=env)
-            rc1, out1 = sh([sys.executable, demo, binp], cwd=WT, env=env, timeout=300)
+            rc1, out1 = run_demo(demo, binp, env)
             meta["ran"].append({"cmd": "demo with patch", "rc": rc1, "tail": out1[-400:]})
             rct, outt = sh("cargo test --offline 2>&1 | grep -E 'test result|FAILED|panicked' | head -20", cwd=WT, env=env, timeout=2400)
             failed = "FAILED" in outt or " failed;" in outt and not all(" 0 failed" in l for l in outt.splitlines() if "test result" in l)
